@@ -84,9 +84,9 @@ func lookupPath(doc any, keys []string) (any, bool) {
 
 // planCalls derives the calls that reproduce doc with builder b: per option, the argument values are
 // looked up in doc at the paths the option's assignments write.
-func planCalls(b ast.Builder, doc map[string]any) (calls []c09Call, skipped []string) {
+func planCalls(b ast.Builder, doc map[string]any, accept func(t ast.Type, v any) bool) (calls []c09Call, skipped []string) {
 	for _, opt := range b.Options {
-		cs, why := planOne(opt.Name, opt.Args, opt.Assignments, doc)
+		cs, why := planOne(opt.Name, opt.Args, opt.Assignments, doc, accept)
 		if why != "" {
 			skipped = append(skipped, opt.Name+": "+why)
 		}
@@ -97,7 +97,7 @@ func planCalls(b ast.Builder, doc map[string]any) (calls []c09Call, skipped []st
 
 // planCtor: the constructor call (nil when the document lacks a value for one of its arguments).
 func planCtor(b ast.Builder, doc map[string]any) (*c09Call, string) {
-	cs, why := planOne("", b.Constructor.Args, b.Constructor.Assignments, doc)
+	cs, why := planOne("", b.Constructor.Args, b.Constructor.Assignments, doc, nil)
 	if why != "" {
 		return nil, why
 	}
@@ -107,7 +107,7 @@ func planCtor(b ast.Builder, doc map[string]any) (*c09Call, string) {
 	return &cs[0], ""
 }
 
-func planOne(name string, optArgs []ast.Argument, assignments []ast.Assignment, doc map[string]any) (calls []c09Call, why string) {
+func planOne(name string, optArgs []ast.Argument, assignments []ast.Assignment, doc map[string]any, accept func(t ast.Type, v any) bool) (calls []c09Call, why string) {
 	argIdx := map[string]int{}
 	for i, a := range optArgs {
 		argIdx[a.Name] = i
@@ -223,8 +223,8 @@ func planOne(name string, optArgs []ast.Argument, assignments []ast.Assignment, 
 				return nil, ""
 			}
 			for ei, el := range arr {
-				if el == nil {
-					continue
+				if el == nil || accept != nil && !accept(optArgs[0].Type, el) {
+					continue // e.g. one option per branch of a union (disjunction_as_options): other branches' elements
 				}
 				calls = append(calls, c09Call{Option: name, Args: []any{el}, Effects: effects, ArgTypes: types, ElemIdx: ei})
 			}
@@ -520,6 +520,16 @@ func checkC09(r *Run) {
 					add(base+"#default", &c09Case{cs: cs, lang: lang, b: b, obj: obj, kind: "default"}, drvReq{Op: "build", Type: cs.ID + "." + normName(b.Name)})
 				}
 				rng := newRNG("c09", r.Seed, cs.ID, lang, b.Name)
+				accept := func(t ast.Type, v any) bool {
+					if !t.IsRef() {
+						return true
+					}
+					o := cs.AM.obj(t.AsRef().ReferredType)
+					if o == nil || o.T.K != "struct" {
+						return true
+					}
+					return cs.Validator.Validate(o.Name, mustJSONBytes(v)) == nil
+				}
 				singles := map[string]int{}
 				for di, d := range cs.Docs[obj.Name] {
 					doc, ok := d.Val.(map[string]any)
@@ -527,7 +537,7 @@ func checkC09(r *Run) {
 						continue
 					}
 					rtID := fmt.Sprintf("%s#rt%d", base, di)
-					calls, skipped := planCalls(b, doc)
+					calls, skipped := planCalls(b, doc, accept)
 					for _, s := range skipped {
 						r.Count("options_not_planned/"+afterColon(s), 1)
 					}
@@ -586,7 +596,7 @@ func checkC09(r *Run) {
 					if !ok {
 						continue
 					}
-					calls, _ := planCalls(b, doc)
+					calls, _ := planCalls(b, doc, accept)
 					ctor, _ := planCtor(b, doc)
 					if ctor == nil {
 						continue
@@ -1058,8 +1068,11 @@ func c09Extras(caps amCaps) []corpusExtra {
 			{"Defaults", st(fld("custom", false, rf("Custom")), fld("unit", false, ty("string")))},
 			{"FieldConfig", st(fld("defaults", false, rf("Defaults")), fld("note", false, ty("string")))},
 			{"Item", st(fld("name", true, strLen(1, 6)), fld("weight", false, weight), fld("on", false, ty("bool")))},
+			{"Row", st(fld("kind", true, konst("row")), fld("title", true, strLen(1, 8)))},
+			{"Graph", st(fld("kind", true, konst("graph")), fld("name", true, strLen(1, 8)), fld("span", false, tyw("int", intW)))},
 			{"Panel", st(
 				fld("kind", true, konst("panel")),
+				fld("elements", false, arr(&amType{K: "union", Disc: "kind", MinLen: -1, MaxLen: -1, Branches: []*amType{rf("Row"), rf("Graph")}})),
 				fld("title", true, strLen(1, 12)),
 				fld("fieldConfig", false, rf("FieldConfig")),
 				fld("visible", true, ty("bool")),
@@ -1084,6 +1097,7 @@ func c09Extras(caps amCaps) []corpusExtra {
 			"Panel.custom": "fieldConfig.defaults.custom", "Panel.unit": "fieldConfig.defaults.unit"}},
 		{"append-unfold", mkAM(), v("", "  - array_to_append: {by_name: Panel.tags}\n  - array_to_append: {by_name: Panel.items}\n  - unfold_boolean: {by_name: Panel.visible, true_as: show, false_as: hide}\n"), map[string]string{
 			"Panel.tags": "tags", "Panel.items": "items", "Panel.show": "visible", "Panel.hide": "visible"}},
+		{"append-union", mkAM(), v("", "  - array_to_append: {by_name: Panel.elements}\n  - disjunction_as_options: {by_name: Panel.elements}\n"), nil},
 		{"index-args", mkAM(), v("", "  - map_to_index: {by_name: Panel.byName}\n  - map_to_index: {by_name: Panel.limits}\n  - struct_fields_as_arguments: {by_name: Panel.leaf}\n"), map[string]string{
 			"Panel.byName": "byName.", "Panel.limits": "limits.", "Panel.leaf": "leaf.name,leaf.weight,leaf.on"}},
 		{"ctor", mkAM(), v("  - promote_options_to_constructor: {by_object: Panel, options: [title, main]}\n  - initialize: {by_object: Item, set: [{property: on, value: true}]}\n", "  - struct_fields_as_options: {by_name: Panel.leaf}\n"), map[string]string{
